@@ -24,7 +24,8 @@ def spec_for(index, seed=0):
         products = {s: rng.randint(1, 3) for s in rng.sample(SPECIES, rng.randint(0, 2))}
         locals_ = {}
         if rng.random() < 0.7:
-            locals_["k"] = float(rng.choice([11, 13, 17, 19]))          # collides with the global k (and other locals)
+            # collides with the global k (and other locals); sometimes with the very same value
+            locals_["k"] = glob["k"] if rng.random() < 0.3 else float(rng.choice([11, 13, 17, 19]))
         if rng.random() < 0.4:
             locals_["loc%d" % r] = float(rng.choice([23, 29]))
         a, b = rng.choice(SPECIES), rng.choice(SPECIES)
@@ -40,7 +41,7 @@ def spec_for(index, seed=0):
     rng.shuffle(kinds)
     used = set()
     for kind in kinds:
-        cand = [v for v in (SPECIES + (["q"] if kind == "assign" else [])) if v not in used]
+        cand = [v for v in (SPECIES + (["q", "k"] if kind == "assign" else [])) if v not in used]
         if not cand:
             break
         var = rng.choice(cand)
